@@ -95,7 +95,9 @@ class Sched:
                 code = int(f[3]) if f[1] == "EXIT" else (97 if f[1] == "DEADLOCK" else 98)
                 errtxt = "(process outlived its wall-clock limit after the run had ended)"
                 break
-        return Run(args, hosts, seed, spur, sigs, code, errtxt, lines)
+        ru = Run(args, hosts, seed, spur, sigs, code, errtxt, lines)
+        ru.env = {k: v for k, v in (env or {}).items() if k.startswith("SCHED_") and k != "SCHED_MAXSTEP"}      # engine options that shape the run (for replays)
+        return ru
 
 
 class Run:
